@@ -13,7 +13,7 @@
 namespace Mpt.Refs
 
 inductive Kind where
-  | tok | arr | mref
+  | tok | arr | mref | uref
   deriving DecidableEq, Repr, Inhabited
 
 inductive Elem where
@@ -159,7 +159,8 @@ def arrayClone (s : State) (h : Nat) (set : Option Nat) (fromNull : Bool) : Stat
       | none => (s2, if set.isSome then 1 else 0)
 
 /-- `buf->detach(buf, used)` for the buffer of handle `h`: a shared buffer is copied element-wise; the handle then
-    holds a private buffer -/
+    holds a private buffer.  Elements without copy constructor (`uref`: the references of `reference_array<T>`) can
+    not be copied: a shared, non-empty buffer of them is refused. -/
 def detach (s : State) (h : Nat) : State × Option Nat :=
   match s.handle h with
   | none => (s, none)
@@ -168,6 +169,7 @@ def detach (s : State) (h : Nat) : State × Option Nat :=
     | none => (s, none)
     | some x =>
       if x.ref < 2 then (s, some b)
+      else if x.kind = .uref ∧ ¬ x.elems.isEmpty then (s, none)
       else
         let s1 := s.setBuf b { x with ref := x.ref - 1 }
         let (s2, es) := copyElems s1 x.elems
